@@ -33,7 +33,8 @@ def sh(cmd, cwd=None, timeout=None, env=None, inp=None):
 def _hash_files(paths, extra=""):
     h = hashlib.sha256()
     for p in sorted(paths):
-        h.update(p.encode())
+        # generated files live in a per-tree cache directory: only their name and content identify them
+        h.update((os.path.basename(p) if p.startswith(CACHE) else p).encode())
         try:
             with open(p, "rb") as f:
                 h.update(f.read())
